@@ -88,6 +88,8 @@ def run(ctx):
             x["case"]["offer"] = True       # the client offers the session-ticket extension (independent of the server's setting)
         if x["expect"]["result"] == "complete" and (i % (7 if not thorough else 23) == 0):
             x["case"]["data"] = True
+            if (i // (7 if not thorough else 23)) % 2 == 1:
+                x["case"]["dyn"] = True
     casef = os.path.join(ctx.work, "cases.ndjson")
     obsf = os.path.join(ctx.work, "obs.ndjson")
     write_ndjson(casef, chosen)
